@@ -133,6 +133,20 @@ CHECKS = {
         note="Excluded as unsupported: rp2_jp with -f and -t together (refused by message), schedules that do not cover the input's first year.",
         design="3/C16",
     ),
+    "C17": dict(
+        category="exploration",
+        technique="exhaustive enumeration of row/table permutations, asset subsets, a measured-coverage set of hash seeds and output-directory histories; differential oracle between two executions of the real code",
+        text="(a) for every valid history of the report driver's tree up to depth 3 (2 152 bases) and a 7-row base: every permutation of the rows inside each table x every order of the tables (up to 720 per base) x fifo / hifo through parse_ods + compute_tax - canonical dumps keyed by unique id must be equal; (b) every non-empty subset of 3 assets whose rows share spreadsheet row numbers x fifo / lifo / hifo / lofo through the generator seam with one accounting engine for the run, each asset compared with itself processed alone (ComputedData dump, its In-Out and Tax sheets, its Summary lines, its tax-report rows); (c) the real rp2_us under the PYTHONHASHSEED values needed to observe all 6 / 6 / 2 iteration orders of the asset / exchange / holder sets (plus 6 more; thorough 16) on 3 (4) inputs - content.xml and styles.xml of every report byte-identical; (d) every sequence of <= 2 earlier runs from a 4-item option menu into the same output directory, and the same run twice, vs a run into a fresh directory.",
+        note="No hand-written expected values. The hash-seed dimension is a finite set with a measured order-coverage criterion, not all 2^32 seeds.",
+        design="3/C17",
+    ),
+    "C18": dict(
+        category="exploration",
+        technique="monitored real CLI runs (audit hook installed before the first rp2 import + sha256 snapshot of the private directory tree, two consecutive runs per case) over valid and invalid inputs; exhaustive syntactic walk over every module of the package",
+        text="Dynamic: 12 (entry point, options) configurations x filters / prefix / -a on 3 valid input shapes (thorough: all 12 shapes), an [accounting_methods] run per shape, and one instance of every fault class of C12's end-to-end list (bad fields per table, broken sheets, malformed configs, conflicting options, missing / corrupt files, overdraft), each run twice into the same output directory in a fresh interpreter: no socket / subprocess / exec / spawn / fork / urllib / http / ftp / smtp / webbrowser audit event; every file opened for writing, renamed, removed or created lies under the output directory or ./log; the snapshot shows changes only there; input .ods and .ini byte-identical. Static: all 52 modules of the rp2 package parsed, every import and call name checked against a deny-list of networking / process / host-query facilities.",
+        note="Behaviour on paths no explored run reaches is covered only by the syntactic walk; the audit hook sees CPython-level events, not raw system calls of C extensions.",
+        design="3/C18",
+    ),
 }
 
 NOT_YET = {
